@@ -90,10 +90,10 @@ PROPS = {
              "random weights} and non-MSD streams, window sets {static; +delta; +delta+delta-delta; width-5; asymmetric [-1,1,0]}. "
              "class = (#windows, max width, voicing class, vector length); non-trivial = a voiced island of >= 2 frames and at least one dynamic window",
         theorem_clauses=["frame -> state assignment by durations", "boundary distances = voiced run lengths; dynamic window ignored iff span touches unvoiced/edge",
-                         "fill: NODATA exactly on unvoiced frames", "banded LDL^T + substitutions solve A c = r for every length and band width (non-zero pivots)",
+                         "fill: NODATA exactly on unvoiced frames", "calc_wuw_and_wum assembles exactly the band of W'U^-1W and W'U^-1 mu (given zero precision where a span leaves the frame range)", "banded LDL^T + substitutions solve A c = r for every length and band width (non-zero pivots)",
                          "normal equations with precisions >= 0 imply maximum likelihood"],
-        test_clauses=["calcWuwWum assembles W'U^-1W and W'U^-1 mu (oracle: normal-equation residual built from the definition over absolute frames)",
-                      "pivots non-zero on every executed case", "rounding accuracy (residual <= 1e-8 of scale)"],
+        test_clauses=["pivots non-zero on every executed case", "rounding accuracy (normal-equation residual built from the definition over absolute frames <= 1e-8 of scale)",
+                      "create() hands calc_wuw_and_wum precisions that are zero where the span leaves the voiced run (EdgeZero), checked through the oracle"],
         assumptions=["variances in the property's range (with_ivar's saturation branches are outside it)"],
     ),
     "C07": dict(
@@ -114,17 +114,17 @@ PROPS = {
              "random cepstra rescaled so that |sum_{m>=1} c_m cos(m w~)| <= 2, rates 8k..96k, DFT on 33/65/129/257 frequencies. "
              "class = (order bucket, alpha bucket, rate); non-trivial = non-zero cepstrum beyond c0",
         theorem_clauses=["mc2b and b2mc are mutually inverse for every alpha", "zero coefficients: the MLSA cascade is the identity in every state",
-                         "c0 -> c0+delta shifts only b0 and multiplies the filter input by exp(delta)"],
+                         "c0 -> c0+delta shifts only b0 and multiplies the filter input by exp(delta)", "the MLSA cascade is homogeneous: scaling the excitation scales the response (so the response scales with exp(c0))"],
         test_clauses=["|ln|H(e^jw)| - sum c_m cos(m w~)| <= 0.01 neper on every bin (Pade approximation error of a concrete rational function)",
                       "response decayed inside the frame"],
-        assumptions=["linearity of the cascade in its input is used informally for the gain clause (not yet a theorem)"],
+        assumptions=[],
     ),
     "C13": dict(
         rule="pulse responses through the public Vocoder with stage 1..4: LSP orders 2..24 even and odd, alpha in [0,0.6] incl. 0, linear and log gain, "
              "random increasing frequencies with spacing >= pi/(4(order+1)), rates 48k/96k, one frame of rate/20-1 samples; every 4th case with beta>0 "
              "(finite/decaying only). class = (order bucket, parity, stage, alpha, gain kind, beta); spectrum clause evaluated when the truncated tail is < -120 dB",
         theorem_clauses=["repaired lsp2lpc does not read the gain element; head coefficient 1", "gc2gc between equal gamma is truncation",
-                         "ignorm inverts gnorm (given the power law)", "MGLSA = cascade of `stage` sections", "gamma = -1/stage"],
+                         "ignorm inverts gnorm (given the power law)", "MGLSA = cascade of `stage` sections", "gamma = -1/stage", "well-separated frequencies pass the stability check unchanged"],
         test_clauses=["|ln|H| - ln(K/|A(e^{jw~})|^s)| <= 0.001 neper within 100 dB of the peak, A from polynomial multiplication of the LSP factors",
                       "finite, decaying response", "lsp2lpc output = coefficients of (P+Q)/2 (not yet a theorem)"],
         assumptions=[],
@@ -178,12 +178,12 @@ PROPS = {
              "every coefficient over eligible frames (GV switch on, voiced) vs weight x GV mean; silence-only utterances for the no-eligible case (compared bitwise "
              "with the ML solution from the stage API); low-pass stream under two GV weights. class = (voice kind, stream, eligibility class)",
         theorem_clauses=["target = gv_mean x gv_weight; switch expanded by durations and restricted to voiced frames", "no eligible frame -> plain ML solution",
-                         "a stream without GV ignores the GV weight"],
+                         "a stream without GV ignores the GV weight", "conv_gv sets the variance over eligible frames exactly to the target, keeps their mean and the ineligible frames"],
         test_clauses=["variance within 20 % of the target when >= 100 frames are eligible", "variance monotone in the weight", "five Newton-like steps (model bit-identical)"],
         assumptions=["the 20 % and monotonicity clauses are empirical properties of a truncated iteration; not provable in exact arithmetic without a convergence analysis"],
     ),
     "C15": dict(
-        rule="bundled, perturbed and generated voices with random in-envelope conditions (GV on), 2..6 labels; h in [-24,24] incl. 0, +-12, +-24 and values up "
+        rule="the bundled voice and PDF-perturbed copies (the property's quantifier) with random in-envelope conditions (GV on), 2..6 labels; h in [-24,24] incl. 0, +-12, +-24 and values up "
              "to +-80 that drive the clamp; two engine runs (h and 0) through the hook. class = (voice kind, zero/up/down/clamped); non-trivial = h != 0 with a voiced frame",
         theorem_clauses=["h = 0 is the identity", "static mean -> clamp(m + h*ln2/12), nothing else of the state changes", "voicing mask unchanged", "durations unchanged",
                          "spectrum and low-pass streams unchanged"],
